@@ -51,7 +51,14 @@ static rc::Gen<Scenario> c15_gen()
 		{ Op o; o.kind = ADD; o.conn = 0; o.a = 1; o.b = -1; sc.ops.push_back(o); }
 		// four subscriptions fill the initial fetcher table of every element; the fifth one (below) makes it grow
 		for (int f = 0; f < 4; f++) { Op o; o.kind = FETCH; o.conn = 1; o.a = f; o.b = 0; sc.ops.push_back(o); }
+		// every scenario holds complete routed exchanges: answered with a result, answered with an error, and left to time out
+		{ Op o; o.kind = SET; o.conn = 1; o.a = 0; o.b = 3; sc.ops.push_back(o); }
+		{ Op o; o.kind = REPLY; o.conn = 0; o.a = 0; o.b = RP_RESULT; o.c = 4; sc.ops.push_back(o); }
+		{ Op o; o.kind = CALL; o.conn = 1; o.a = 1; o.b = 5; o.idm = ID_STR; sc.ops.push_back(o); }
+		{ Op o; o.kind = REPLY; o.conn = 0; o.a = 0; o.b = RP_ERROR; o.c = 2; sc.ops.push_back(o); }
 		for (auto &o : ops) sc.ops.push_back(o);
+		{ Op o; o.kind = CALL; o.conn = 1; o.a = 1; o.b = -1; o.d = 2; sc.ops.push_back(o); }
+		{ Op o; o.kind = ADVANCE; o.a = 9; sc.ops.push_back(o); }
 		{ Op o; o.kind = FETCH; o.conn = 1; o.a = 4; o.b = 0; sc.ops.push_back(o); }
 		{ Op o; o.kind = CHANGE; o.conn = 0; o.a = 0; o.b = 2; sc.ops.push_back(o); }
 		{ Op o; o.kind = UNFETCH; o.conn = 1; o.a = 4; sc.ops.push_back(o); }
